@@ -323,11 +323,18 @@ package tds
 //@   modifies packet.*, reader.$tpos, reader.$tfail
 //@   ensures [consumed] err == nil ==> total == packet.Header.Length && reader.$tpos == old(reader.$tpos) + packet.Header.Length
 //@   ensures [header] err == nil ==> packet.Header.MsgType == reader.$tin[old(reader.$tpos)] && packet.Header.Status == reader.$tin[old(reader.$tpos) + 1] && packet.Header.Length == reader.$tin[old(reader.$tpos) + 2] * 256 + reader.$tin[old(reader.$tpos) + 3] && packet.Header.Channel == reader.$tin[old(reader.$tpos) + 4] * 256 + reader.$tin[old(reader.$tpos) + 5]
-//@   ensures [body] err == nil ==> packet.Data != nil && len(packet.Data) == packet.Header.Length - 8 && fresh(packet.Data) && (forall j int :: 0 <= j && j < len(packet.Data) ==> packet.Data[j] == reader.$tin[old(reader.$tpos) + 8 + j])
+//@   ensures [body-slice] err == nil ==> packet.Data != nil && len(packet.Data) == packet.Header.Length - 8 && fresh(packet.Data)
+//@   ensures [body] err == nil ==> (forall j int :: 0 <= j && j < len(packet.Data) ==> packet.Data[j] == reader.$tin[old(reader.$tpos) + 8 + j])
 //@   ensures [error-only-if-transport-failed-or-cancelled] err != nil ==> reader.$tfail || ctx.$done
 //@   loop 0:
 //@     invariant [n8] n == 8 && 8 <= totalBytes && totalBytes - 8 <= len(packet.Data)
 //@     invariant [ctx] nonnil(timeoutCtx) && cancel != nil
+//@     invariant [pos] reader.$tpos == old(reader.$tpos) + totalBytes
+//@     invariant [tin] reader.$tin == old(reader.$tin)
+//@     invariant [data] packet.Data != nil && fresh(packet.Data) && len(packet.Data) == (packet.Header.Length - 8) % 65536
+//@     invariant [hdr] packet.Header.MsgType == reader.$tin[old(reader.$tpos)] && packet.Header.Status == reader.$tin[old(reader.$tpos) + 1] && packet.Header.Length == reader.$tin[old(reader.$tpos) + 2] * 256 + reader.$tin[old(reader.$tpos) + 3] && packet.Header.Channel == reader.$tin[old(reader.$tpos) + 4] * 256 + reader.$tin[old(reader.$tpos) + 5]
+//@     invariant [content] forall j int :: 0 <= j && j < totalBytes - 8 ==> packet.Data[j] == reader.$tin[old(reader.$tpos) + 8 + j] by@keep (0 <= j && j < head(totalBytes) - 8 ==> packet.Data[j] == head(packet.Data[j])) && (head(totalBytes) - 8 <= j && j < totalBytes - 8 ==> packet.Data[j] == reader.$tin[head(reader.$tpos) + (j - (head(totalBytes) - 8))])
+//@     exitinv [content] forall j int :: 0 <= j && j < totalBytes - 8 ==> packet.Data[j] == reader.$tin[old(reader.$tpos) + 8 + j] by@keep (0 <= j && j < head(totalBytes) - 8 ==> packet.Data[j] == head(packet.Data[j])) && (head(totalBytes) - 8 <= j && j < totalBytes - 8 ==> packet.Data[j] == reader.$tin[head(reader.$tpos) + (j - (head(totalBytes) - 8))])
 
 //@ # ---------------------------------------------------------------------
 //@ # PacketQueue (C15): a byte FIFO over packets. Abstract view = the BytesChannel
